@@ -9,6 +9,7 @@ must equal the pre-state with some prefix (0..k) of the delivered items applied;
 """
 
 import copy as _copy
+import json
 from typing import Any, Dict, List, Optional
 
 from sim.core import EventLog, SimAbort, Stats, Violation, result_ok, result_violation, stream
@@ -46,7 +47,10 @@ POOL_JSON = (
     + [{"t": "str", "v": s} for s in ("a", "b", "c")]
     + [{"t": "tuple", "v": [1, 2]}, {"t": "tuple", "v": [0]}]
     + [{"t": "evil", "v": 0}, {"t": "evil", "v": 1}]
+    # a long tail of plain ints, used only by "big" runs: sets larger than any small-size fast path
+    + [{"t": "int", "v": i} for i in range(6, 150)]
 )
+N_SMALL_POOL = 17
 
 
 def dec_elem(j: Dict[str, Any]):
@@ -213,6 +217,8 @@ def _gen_iter(r, pool_idx, allow_fault: bool, kinds=None, allow_slot=True) -> Di
     if kind == "slot":
         return {"kind": "slot", "slot": r.randrange(NSLOTS)}
     n = r.choice([0, 1, 1, 2, 2, 3, 3, 4, 5, 7])
+    if len(pool_idx) > 40 and r.random() < 0.5:
+        n = r.choice([20, 45, 90])
     idx = [r.choice(pool_idx) for _ in range(n)]
     if r.random() < 0.3 and idx:
         idx.append(r.choice(idx))  # explicit repeats
@@ -236,8 +242,11 @@ def generate(run_seed: int, cfg: Dict[str, Any]) -> Dict[str, Any]:
     faulty = bool(cfg.get("faulty", run_seed % 2 == 1))
     n_ops = rk.randint(cfg.get("min_ops", 5), cfg.get("max_ops", 40))
     # swarm: per-run subset of the pool and per-run op mix
-    psize = rk.choice([3, 5, 8, len(POOL_JSON)])
-    pool_idx = sorted(rk.sample(range(len(POOL_JSON)), psize))
+    psize = rk.choice([3, 5, 8, N_SMALL_POOL])
+    pool_idx = sorted(rk.sample(range(N_SMALL_POOL), psize))
+    big = rk.random() < 0.08
+    if big:
+        pool_idx = pool_idx + list(range(N_SMALL_POOL, len(POOL_JSON)))
     w_mut, w_make, w_obs = rk.choice([(6, 3, 1), (3, 6, 1), (4, 4, 2), (8, 1, 1)])
     fault_rate = rk.choice([0.05, 0.1, 0.2]) if faulty else 0.0
     rs = stream(run_seed, "schedule")
@@ -312,7 +321,22 @@ def _check_slot(i, oset, model, opname, step, strict_order=True):
 def _run(scn, log: EventLog, stats: Stats):
     from data_algebra.OrderedSet import OrderedSet, ordered_diff, ordered_intersect, ordered_union
 
-    pool = [dec_elem(e) for e in POOL_JSON]
+    used = []
+    for op_ in scn["ops"]:
+        for key_ in ("it", "a", "b"):
+            if isinstance(op_.get(key_), dict):
+                used.extend(op_[key_].get("items", []))
+        for j_ in op_.get("its", []) or []:
+            used.extend(j_.get("items", []))
+        if "e" in op_:
+            used.append(op_["e"])
+    seen_keys = []
+    pool = []
+    for e_ in POOL_JSON[:N_SMALL_POOL] + used:
+        k_ = (e_["t"], json.dumps(e_["v"]))
+        if k_ not in seen_keys:
+            seen_keys.append(k_)
+            pool.append(dec_elem(e_))
     slots: List[Any] = [OrderedSet() for _ in range(NSLOTS)]
     model: List[List[Any]] = [[] for _ in range(NSLOTS)]
     kinds: List[str] = []
